@@ -113,13 +113,21 @@ func Exec(s *Scenario, newPath map[string]bool, derive bool, info func(string)) 
 	if !ok {
 		return nil, "", nil, []core.Mismatch{{Signature: "machinery", Detail: "unknown embedding " + s.Emb}}
 	}
+	var aliasMs []core.Mismatch
 	okb, msg := latgeo.Try(func() {
-		p, err := Build(s.Hist, e)
+		p, kept, alias, err := BuildTracked(s.Hist, e)
 		if err != nil {
 			ms = append(ms, core.Mismatch{Signature: "machinery", Detail: err.Error()})
 			return
 		}
 		data = cloneF(p.Data())
+		// value semantics of Append/Join: result and argument are independent (aliasing model of the spec)
+		if alias == "" {
+			alias = ProbeAliasing(p, data, kept, e)
+		}
+		if alias != "" {
+			aliasMs = append(aliasMs, core.Mismatch{Signature: "aliasing-argument-" + aliasOp(alias), Detail: fmt.Sprintf("history %s (embedding %s): %s", histString(s.Hist), s.Emb, alias)})
+		}
 	})
 	if !okb {
 		return nil, "", nil, []core.Mismatch{{Signature: "panic-builder:" + latgeo.PanicClass(msg), Detail: fmt.Sprintf("builder call panics: %v", msg)}}
@@ -129,8 +137,9 @@ func Exec(s *Scenario, newPath map[string]bool, derive bool, info func(string)) 
 	}
 	stream, off, err := Project(data, e)
 	if err != nil {
-		return nil, "", data, []core.Mismatch{{Signature: "not-decodable", Detail: fmt.Sprintf("Data() = %v: %v", data, err)}}
+		return nil, "", data, append(aliasMs, core.Mismatch{Signature: "not-decodable", Detail: fmt.Sprintf("Data() = %v: %v", data, err)})
 	}
+	ms = append(ms, aliasMs...)
 	if derive {
 		ms = append(ms, Derive(data, e, s.F, newPath, info)...)
 	}
@@ -243,6 +252,13 @@ func geomTag(s *Scenario) string {
 		t += ":collinear-reversal"
 	}
 	return t
+}
+
+func aliasOp(msg string) string {
+	if strings.Contains(msg, "Join(") {
+		return "Join"
+	}
+	return "Append"
 }
 
 func hasOp(h []Call, ops ...string) bool {
